@@ -196,9 +196,44 @@ def gen_history(rng, length, directed=None):
     return ops
 
 
+def gen_cached_then_subgraph(rng):
+    """a molecule whose highest key is known from a merge (and from consecutive additions after it), a copy or a part of it
+    that may leave the highest key out, and then merges into that new molecule"""
+    tagc = [500]
+    k0 = rng.sample(range(0, 9), rng.randint(1, 3))
+    k1 = rng.sample(range(0, 9), rng.randint(1, 3))
+    ops = [['NewEmpty', 1], ['AddNodesFrom', 0, [[k, gen_attrs(rng, tagc)] for k in k0]],
+           ['NewEmpty', 1], ['AddNodesFrom', 1, [[k, gen_attrs(rng, tagc)] for k in k1]],
+           ['Merge', 0, 1]]
+    keys = list(k0) + [max(k0) + 1 + i for i in range(len(k1))]
+    for _ in range(rng.choice([0, 0, 1, 2])):
+        keys.append(max(keys) + 1)                      # consecutive additions keep the cached highest key
+        ops.append(['AddNode', 0, keys[-1], gen_attrs(rng, tagc)])
+    mode = rng.choice(['drop_top', 'drop_top', 'keep_top', 'copy', 'empty'])
+    if mode == 'copy':
+        ops.append(['Copy', 0])
+        sel = list(keys)
+    else:
+        top = max(keys)
+        rest = [k for k in keys if k != top]
+        sel = [] if mode == 'empty' else rng.sample(rest, rng.randint(1, len(rest))) if rest else []
+        if mode == 'keep_top':
+            sel.append(top)
+        rng.shuffle(sel)
+        ops.append(['Subgraph', 0, sel])
+    ops.append(['Merge', 2, rng.choice([0, 1])])
+    if sel and rng.random() < 0.5:
+        ops.append(['AddInteraction', 2, 0, {'atoms': [rng.choice(sel)], 'params': 3, 'version': None}])
+    if rng.random() < 0.5:
+        ops.append(['Merge', 2, 1])
+    return ops
+
+
 def generate(rng, tier):
     n = 330 if tier == 'quick' else 4000
     cases = []
+    for _ in range(25 if tier == 'quick' else 300):
+        cases.append({'ops': gen_cached_then_subgraph(rng)})
     kinds = ['addnode', 'addnodes', 'rmnode', 'rmnodes', 'addedge', 'addint', 'addorrep', 'rmint', 'copy', 'subgraph',
              'tomol', 'mergeall']
     for d in kinds:
